@@ -481,12 +481,11 @@ def distTextOk (desc : Str) (a : DistTrace) : Bool :=
         kv.2.contains '(' || (Number.parseDecimal '.' 'e' kv.2).isSome)
 
 /-- which option of the original distribution the description language is known not to carry
-(known findings): a fixed offset of a Gamma (`Gf`), the discretisation scheme of a Beta (`Bi`,
-`Bp`), class values that are medians (`Md`) -/
+(known finding): the discretisation scheme of a Beta (`Bi`, `Bp`).  A fixed offset of a Gamma
+(`Gf`) and class values that are medians (`Md`) are written since the repairs on fix-C17 and are
+judged by the ordinary clauses. -/
 def lostOption (op : List String) : Option String :=
-  if op.contains "Gf" then some "dist_fixed_offset_lost"
-  else if op.contains "Bi" || op.contains "Bp" then some "dist_discretization_lost"
-  else if op.contains "Md" then some "dist_median_lost"
+  if op.contains "Bi" || op.contains "Bp" then some "dist_discretization_lost"
   else none
 
 def distVerdict (op : List String) (impl : Option (List String)) : String :=
